@@ -1097,6 +1097,24 @@ def check_cli(chk, drv, r, tier, work, jobs):
                         {"base": base, "hdr": hdr0, "ids": ids, "cores": cores, "tag": {**tag, "prog": "assemble"},
                          "n_samples": n_samples}, env=hash_env(r))
 
+        # ---------------- one alignment file holding every sample: the sample columns must not depend on the process
+        # (fresh interpreters get different string-hash seeds)
+        if d == 0 and tier != "warm":
+            ms = synth.make_dataset(C.rng(PROP + ":multi-sample-bam"), os.path.join(work, "dsM"), n_samples=5, n_loci=2, ploidies=(2, 4),
+                                    max_snvs=3, depth=(5, 9), contig_len=300)
+            merged = synth.merge_bams(os.path.join(work, "dsM.all-samples.bam"), ms.contigs, ms, list(ms.bams))
+            margv = ms.assemble_argv(*acommon)
+            i0 = margv.index("--bam")
+            i1 = next(j for j in range(i0 + 1, len(margv)) if margv[j].startswith("--"))
+            margv[i0 + 1:i1] = [merged]
+            mh, mrecs = run(margv, "assemble multi-sample BAM", base=True)
+            mids = [lkey(l) for l in ms.loci]
+            chk.count("cli:multi-sample-bam")
+            for k_ in range(2 if tier == "quick" else 4):
+                jobs.submit(f"assemble multi-sample BAM fresh process {k_}", margv,
+                            {"base": by_id(mrecs), "hdr": mh, "ids": mids, "cores": 1,
+                             "tag": {**tag, "prog": "assemble", "bam": "five samples in one file"}, "n_samples": 5}, env=hash_env(r))
+
         # ---------------- overlapping / nested / repeated / nameless targets
         if d == 0 or tier == "thorough":
             special_targets(chk, r, run, jobs, drv_reqs, work, ds, d, acommon, base, hdr0, tag, tier)
